@@ -164,13 +164,14 @@ def bounds(tier):
 # class label -> (n_fields it applies to); constructor variants are in build_table
 CLASSES = {
     1: ['Table', 'TableF', 'ProbabilityTable', 'StateTable', 'StateTable.from_dict'],
-    2: ['Table', 'TableF', 'ProbabilityTable', 'StateActionTable', 'StateActionTable.from_dict', 'TabularPolicy'],
+    2: ['Table', 'TableF', 'ProbabilityTable', 'StateActionTable', 'StateActionTable.from_dict', 'StateActionTable.from_dict(ragged)',
+        'StateNextStateTable', 'TabularPolicy'],
     3: ['Table', 'ProbabilityTable', 'StateActionNextStateTable'],
 }
 PROB = {'ProbabilityTable', 'TabularPolicy'}
 # constructor variants: only the core part of the key alphabet (element / tuple / chain / outer-key-list /
 # pool keys bare and substituted into full keys) is run on them
-LIGHT = {'TableF', 'StateTable.from_dict', 'StateActionTable.from_dict'}
+LIGHT = {'TableF', 'StateTable.from_dict', 'StateActionTable.from_dict', 'StateActionTable.from_dict(ragged)', 'StateNextStateTable'}
 
 
 # ----------------------------------------------------------------------------------------------
@@ -561,6 +562,20 @@ def build_table(label, doms, vals):
         if len(al) != len(doms[1]) or {a: 0 for a in al}.keys() != {a: 0 for a in doms[1]}.keys():
             return t, None
         return t, (doms[0], al)
+    if label == 'StateActionTable.from_dict(ragged)':
+        # the last state does not list the last action (the shape Policy.evaluate_on produces): that cell holds default_value
+        d = {s: {a: float(data[i, j]) for j, a in enumerate(doms[1])} for i, s in enumerate(doms[0])}
+        if len(doms[0]) >= 2:
+            del d[doms[0][-1]][doms[1][-1]]
+            vals.reshape(shape)[-1, -1] = -1.0
+        t = StateActionTable.from_dict(d, default_value=-1.0)
+        al = tuple(t.action_list)
+        if len(al) != len(doms[1]) or {a: 0 for a in al}.keys() != {a: 0 for a in doms[1]}.keys():
+            return t, None
+        return t, (doms[0], al)
+    if label == 'StateNextStateTable':
+        from msdm.core.mdp.tables import StateNextStateTable
+        return StateNextStateTable(data=data, table_index=TableIndex(field_names=('state', 'next_state'), field_domains=doms)), doms
     if label == 'TabularPolicy':
         return TabularPolicy.from_state_action_lists(state_list=list(doms[0]), action_list=tuple(doms[1]), data=data), doms
     if label == 'StateActionNextStateTable':
